@@ -324,6 +324,142 @@ def stale_entity_results(pm, canon, results, rnd, budget, handles):
                                     'wrote': True, 'mdib_changed': snap_key() != before})
 
 
+def periodic_results(results, rnd, budget, mode):
+    """what is waiting for / goes into the next PERIODIC report must not follow writes of the application into the objects
+    it was handed: a started provider with periodic reports (mode 'fixed interval': start_all(periodic_reports_interval);
+    mode 'Retrievability=Periodic': the retrievability loop) on a virtual clock; transactions of every state kind commit;
+    observers of every *_by_handle observable and the holder of the `transaction` result then write nested and top-level
+    values into what they were handed; then the periodic thread runs one period and every state of every Periodic*Report on
+    the wire is compared with the value the MDIB held right after the commit that produced that StateVersion."""
+    import c04_common as cc
+    from sdc11073 import observableproperties as properties
+    from sdc11073.xml_types.pm_types import Retrievability, RetrievabilityInfo, RetrievabilityMethod
+    gate = cc.Gate()
+    gate.install()
+    w = World(start=False)
+    pm = w.provider.mdib
+    pm.pre_commit_handler = None
+    pm.post_commit_handler = None
+    canon = mdibrun.Canon()
+    nsh = pm.data_model.ns_helper
+    pmt = pm.data_model.pm_types
+    picks = {}          # transaction name -> descriptor handles
+    for st in sorted(pm.states.objects, key=lambda x: x.DescriptorHandle):
+        name = tx_name(st)
+        if name and name != 'rt_sample_state_transaction' and len(picks.setdefault(name, [])) < 2:
+            picks[name].append(st.DescriptorHandle)
+    ctx_descr = 'PC.mds0'
+    if mode != 'fixed interval':
+        for h in [h for hs in picks.values() for h in hs] + [ctx_descr]:
+            descr = pm.descriptions.handle.get_one(h)
+            retr_list = descr.get_retrievability()
+            if len(retr_list) == 0:
+                retr_list.append(Retrievability())
+            retr_list[0].By.append(RetrievabilityInfo(RetrievabilityMethod.PERIODIC, update_period=1.0))
+            descr.set_retrievability(retr_list)
+        pm.xtra.update_retrievability_lists()
+    w.provider.start_all(start_rtsample_loop=False, shared_http_server=w.provider_server,
+                         periodic_reports_interval=1.0 if mode == 'fixed interval' else None)
+    getter = f'periodic report [{mode}] after writes into'
+    if not gate.wait_arrival(1):
+        results.append({'getter': 'harness(periodic)', 'handle': '', 'path': [], 'error': 'the periodic thread did not start'})
+        return
+    cons = w.add_consumer()
+    gate.run(1)                                   # the start delay; the thread now waits for the end of the first period
+    handed = []                                   # (source, object) of the running commit
+
+    def collector(source):
+        def cb(value):
+            if isinstance(value, dict):
+                handed.extend((source, o) for o in value.values())
+            elif value is not None:
+                handed.extend((source, o) for o in value.all_states())
+        return cb
+    properties.strongbind(pm, transaction=collector('transaction result'), metrics_by_handle=collector('metrics_by_handle'),
+                          alert_by_handle=collector('alert_by_handle'), component_by_handle=collector('component_by_handle'),
+                          context_by_handle=collector('context_by_handle'), operation_by_handle=collector('operation_by_handle'))
+
+    def snap_key():
+        s = mdibrun.snapshot(pm, canon)
+        return json.dumps({k: s[k] for k in ('ver', 'descrs', 'states', 'cstates')}, sort_keys=True)
+
+    committed = {}      # (key, StateVersion) -> canonical state the MDIB held right after that commit
+    written = {}        # key -> [(source, path)] written into handed-out objects since the last period
+    n = 20
+    for rnd_no in range(2):
+        for name, hs in list(picks.items()) + [('context_state_transaction', ['p1'])]:
+            del handed[:]
+            n += 1
+            with getattr(pm, name)() as tr:
+                for h in hs:
+                    if name == 'context_state_transaction':
+                        s = tr.get_context_state(h) if pm.context_states.handle.get_one(h, allow_none=True) is not None \
+                            else tr.mk_context_state(ctx_descr, h, set_associated=True)
+                    else:
+                        s = tr.get_state(h)
+                    mdibrun.set_payload(s, n, pmt)
+            for h in hs:
+                cur = pm.context_states.handle.get_one(h) if name == 'context_state_transaction' \
+                    else pm.states.descriptor_handle.get_one(h)
+                key = ('c:' + h) if name == 'context_state_transaction' else h
+                committed[(key, cur.StateVersion)] = canon.any_state(cur, nsh)
+            # the application writes into everything this commit handed to it
+            before = snap_key()
+            seen = set()
+            sources = {}
+            for source, o in handed:
+                sources.setdefault(id(o), set()).add(source)
+            for _source, o in list(handed):
+                if id(o) in seen:
+                    continue
+                seen.add(id(o))
+                source = ' + '.join(sorted(sources[id(o)]))
+                key = ('c:' + o.Handle) if o.is_context_state else o.DescriptorHandle
+                paths = paths_of(o)
+                rnd.shuffle(paths)
+                for path in paths[:max(2, budget // 2)]:
+                    try:
+                        if apply_path(o, path, valid_only=True):
+                            written.setdefault(key, []).append((source, [str(p) for p in path]))
+                    except Exception:  # noqa: BLE001
+                        continue
+                try:
+                    mdibrun.set_payload(o, 424242, pmt)
+                    written.setdefault(key, []).append((source, ['<payload member, top level>']))
+                except Exception:  # noqa: BLE001
+                    pass
+            results.append({'getter': f'MDIB [{mode}] after writes into *_by_handle / transaction result objects of',
+                            'handle': ','.join(hs), 'path': ['<all written paths>'], 'wrote': bool(seen),
+                            'mdib_changed': snap_key() != before})
+        n0 = len(w.net.log)
+        if not gate.run(1):
+            results.append({'getter': 'harness(periodic)', 'handle': '', 'path': [],
+                            'error': 'the periodic thread did not complete its period (it may have died)'})
+            break
+        reports = [r for r in cc.arrivals(w, cons, canon, start=n0) if r['kind'] in cc.PERIODIC or r['kind'] == 'UNPARSABLE']
+        if not reports:
+            results.append({'getter': 'harness(periodic)', 'handle': '', 'path': [], 'error': f'no periodic report was sent [{mode}]'})
+        for r in reports:
+            if r['kind'] == 'UNPARSABLE':
+                results.append({'getter': getter, 'handle': '', 'path': ['<report>'], 'error': 'periodic report not parseable: ' + r.get('err', '')})
+                continue
+            for part in r['parts']:
+                for st in part['states']:
+                    ctx_state = len(st) > 5
+                    key = ('c:' + str(st[0])) if ctx_state else st[0]
+                    want = committed.get((key, st[2]))
+                    if want is None:
+                        continue              # a state (version) this probe did not commit: nothing to compare with
+                    srcs = written.get(key, [])
+                    results.append({'getter': f'{getter} {" / ".join(sorted({s for s, _ in srcs})) or "nothing"}', 'handle': key,
+                                    'path': [f'{r["kind"]}: StateVersion {st[2]}'] + ['.'.join(p) for _, p in srcs[:4]],
+                                    'wrote': bool(srcs), 'mdib_changed': st != want,
+                                    'reported': st, 'committed': want})
+        written.clear()
+    w.stop()
+
+
+
 def main():
     w = World()
     pm = w.provider.mdib
@@ -470,6 +606,12 @@ def main():
                             'wrote': wrote, 'mdib_changed': after != before})
             before = after
     w.stop()
+    # pending / collected periodic reports vs writes of the application into what a commit handed to it
+    for mode in ('fixed interval', 'Retrievability=Periodic'):
+        try:
+            periodic_results(results, rnd, budget, mode)
+        except Exception:  # noqa: BLE001
+            results.append({'getter': 'harness(periodic reports)', 'handle': mode, 'path': [], 'error': traceback.format_exc()[-400:]})
     print(json.dumps({'results': results, 'written': n_written}))
 
 
